@@ -13,6 +13,7 @@ import (
 	"fmt"
 	"math"
 	"os"
+	"runtime"
 	"runtime/debug"
 	"testing"
 )
@@ -32,6 +33,7 @@ type witness struct {
 	Inputs  []input          `json:"inputs"`
 }
 
+
 type failRec struct {
 	ID    string   `json:"id"`
 	Known []string `json:"known,omitempty"`
@@ -47,6 +49,8 @@ type result struct {
 	Skipped  bool      `json:"skipped,omitempty"`
 	Notes    []string  `json:"notes,omitempty"`
 }
+
+var allocBudget int64
 
 var (
 	cur    *witness
@@ -135,8 +139,22 @@ func Known(id string, c bool) bool {
 
 func ClearKnown() { known = nil }
 
-// NoPanic runs f; a panic escaping f is an assertion failure id.
+// NoPanic runs f; a panic escaping f is an assertion failure id. With an
+// allocation budget set, allocating more than the budget (in bytes, measured
+// as the growth of runtime.MemStats.TotalAlloc) during f is the failure
+// "alloc-oversize".
 func NoPanic(id string, f func()) {
+	var before runtime.MemStats
+	if allocBudget > 0 {
+		runtime.ReadMemStats(&before)
+		defer func() {
+			var after runtime.MemStats
+			runtime.ReadMemStats(&after)
+			if d := after.TotalAlloc - before.TotalAlloc; d > uint64(allocBudget) {
+				res.Fails = append(res.Fails, failRec{ID: "alloc-oversize", Msg: fmt.Sprintf("allocated %d bytes", d)})
+			}
+		}()
+	}
 	defer func() {
 		if r := recover(); r != nil {
 			switch r.(type) {
@@ -153,7 +171,7 @@ func NoPanic(id string, f func()) {
 func Note(s string) { res.Notes = append(res.Notes, s) }
 
 // Monitors: approximated natively.
-func AllocBudget(n int64) {}
+func AllocBudget(n int64) { allocBudget = n }
 func Freeze(roots ...any) {}
 func Unfreeze()           {}
 
@@ -175,9 +193,13 @@ func Replay(t *testing.T, pkg string, fns map[string]func()) {
 	if err := json.Unmarshal(data, &ws); err != nil {
 		t.Fatal(err)
 	}
+	only := -1
+	if s := os.Getenv("VERIF_ONLY"); s != "" {
+		fmt.Sscan(s, &only)
+	}
 	for i := range ws {
 		w := &ws[i]
-		if w.Pkg != pkg {
+		if w.Pkg != pkg || (only >= 0 && i != only) || (only < 0 && w.Event == "alloc") {
 			continue
 		}
 		f := fns[w.Harness]
@@ -185,7 +207,7 @@ func Replay(t *testing.T, pkg string, fns map[string]func()) {
 		if f == nil {
 			r.Mismatch = "harness not found: " + w.Harness
 		} else {
-			cur, pos, res, known = w, 0, r, nil
+			cur, pos, res, known, allocBudget = w, 0, r, nil, 0
 			func() {
 				defer func() {
 					if p := recover(); p != nil {
